@@ -1118,6 +1118,7 @@ impl SrvState {
             3 => krpc::immutable_target(&imm_value(0)),
             4 => krpc::immutable_target(&imm_value(1)),
             5 => krpc::mutable_target(&keypair(7).verifying_key().to_bytes(), None),
+            7 => krpc::mutable_target(&keypair(2).verifying_key().to_bytes(), None),
             _ => [0x42; 20],
         }
     }
